@@ -802,8 +802,9 @@ impl Scenario for C15Capi {
 					});
 				}
 				14 if live.len() < 2 => {
-					live.push(1);
-					ops.push(COp::Make { vm: 1 });
+					let id = usize::from(live.contains(&0));
+					live.push(id);
+					ops.push(COp::Make { vm: id });
 				}
 				15 if live.len() > 1 => {
 					live.retain(|v| *v != vm);
@@ -922,7 +923,17 @@ impl Scenario for C15Capi {
 				} else {
 					rec.fault("evaluation ended in an error on both sides");
 					if capi["text"] != reference["text"] {
-						rec.probe("error text differs between C API and Rust API (flag agrees)");
+						// "returns the same text and error flag": the formatted error is text too
+						rec.violate(
+							"capi-error-text-differs",
+							"error-text",
+							format!(
+								"op{i} {}: both sides fail, but the C API reports {:?} and the Rust API (same trace format) {:?}",
+								opdesc.chars().take(300).collect::<String>(),
+								capi["text"].as_str().unwrap_or("").chars().take(400).collect::<String>(),
+								reference["text"].as_str().unwrap_or("").chars().take(400).collect::<String>()
+							),
+						);
 					}
 				}
 			}
